@@ -61,14 +61,26 @@ func (l *queryLog) searchMemory(
 		return nil, 0
 	}
 
-	l.bufferLock.Lock()
-	defer l.bufferLock.Unlock()
+	// Copy the records under the lock, but enrich and match them without it,
+	// since getting the client information may require locks of other modules,
+	// which in turn may be held by goroutines waiting to add a record.
+	var clones []*logEntry
+	func() {
+		l.bufferLock.Lock()
+		defer l.bufferLock.Unlock()
 
-	l.buffer.ReverseRange(func(entry *logEntry) (cont bool) {
-		// A shallow clone is enough, since the only thing that this loop
-		// modifies is the client field.
-		e := entry.shallowClone()
+		total = int(l.buffer.Len())
+		clones = make([]*logEntry, 0, total)
+		l.buffer.ReverseRange(func(entry *logEntry) (cont bool) {
+			// A shallow clone is enough, since the only thing that the loop
+			// below modifies is the client field.
+			clones = append(clones, entry.shallowClone())
 
+			return true
+		})
+	}()
+
+	for _, e := range clones {
 		var err error
 		e.client, err = l.client(e.ClientID, e.IP.String(), cache)
 		if err != nil {
@@ -87,11 +99,9 @@ func (l *queryLog) searchMemory(
 		if params.match(e) {
 			entries = append(entries, e)
 		}
+	}
 
-		return true
-	})
-
-	return entries, int(l.buffer.Len())
+	return entries, total
 }
 
 // search searches log entries in memory buffer and log file using specified
